@@ -2274,7 +2274,15 @@ async fn handle_packet(
                     // the incoming source) is a separate concern gated by
                     // `enable_latching` inside handle_stun_request — it is NOT the same
                     // as "should we even reply to this STUN message".
-                    handle_stun_request(&sender, &msg, addr, inner).await;
+                    //
+                    // In WebRTC mode the request must prove knowledge of this session's
+                    // credentials first (RFC 8445 §7.3, RFC 5389 §10.1.2); anything else
+                    // is dropped without touching ICE state.
+                    if stun_request_is_authentic(packet, &msg, &inner) {
+                        handle_stun_request(&sender, &msg, addr, inner).await;
+                    } else {
+                        debug!("Dropping unauthenticated STUN request from {}", addr);
+                    }
                 } else if msg.class == StunClass::SuccessResponse {
                     let mut map = inner.pending_transactions.lock();
                     if let Some(tx) = map.remove(&msg.transaction_id) {
@@ -2392,6 +2400,25 @@ async fn handle_packet(
             serde_json::json!({"src": addr.to_string(), "h": h, "len": len, "b0": b}),
         );
     }
+}
+
+/// Short-term credential check for an inbound STUN request (RFC 8445 §7.3):
+/// USERNAME must be `<local ufrag>:<remote ufrag>` and MESSAGE-INTEGRITY must be
+/// keyed with the local ICE password. Only WebRTC mode has ICE credentials; the
+/// RTP/SRTP modes (including ICE-lite over plain RTP) keep answering bare probes.
+fn stun_request_is_authentic(packet: &[u8], msg: &StunDecoded, inner: &IceTransportInner) -> bool {
+    if inner.config.transport_mode != crate::TransportMode::WebRtc {
+        return true;
+    }
+    let (ufrag, password) = {
+        let local = inner.local_parameters.lock();
+        (local.username_fragment.clone(), local.password.clone())
+    };
+    let Some((local_part, _remote_part)) = msg.username.as_deref().and_then(|u| u.split_once(':'))
+    else {
+        return false;
+    };
+    local_part == ufrag && msg.verify_integrity(packet, password.as_bytes())
 }
 
 async fn handle_stun_request(
